@@ -79,30 +79,34 @@ def _runs_of(trace_path):
                     cur = None
     return runs
 
-def run_job(binary, wd, name, args, timeout=3000):
-    """one shard: sched <args> -> trace; npdriver life trace -> verdicts. Returns a result dict."""
+def run_job(binary, wd, name, args, timeout=3000, mode='life'):
+    """one shard: sched <args> -> trace; npdriver <mode> trace -> verdicts (mode: life | read | flush). Returns a result dict."""
     os.makedirs(wd, exist_ok=True)
     trace = os.path.join(wd, name + '.trace'); res = os.path.join(wd, name + '.res')
     t0 = time.time()
     p = subprocess.run([binary] + args + ['-out', trace], stdout=subprocess.PIPE, stderr=subprocess.STDOUT, text=True, timeout=timeout)
     t1 = time.time()
     out = {'name': name, 'runs': 0, 'lines': 0, 'conf_fail': [], 'spec_fail': [], 'sites': {}, 'enum': [], 'harness_rc': p.returncode,
-           'harness_out': p.stdout[-2000:], 'statuses': {}, 'distinct': 0, 'diverged': 0, 'go_s': t1 - t0, 'stuck': False}
+           'harness_out': p.stdout[-2000:], 'statuses': {}, 'distinct': 0, 'diverged': 0, 'go_s': t1 - t0, 'stuck': False,
+           'known': [], 'stats': {}}
     if p.returncode == 3:
         out['stuck'] = True      # the harness stopped after a run in which an actor never reached a schedule point
         out['harness_rc'] = 0
     elif p.returncode != 0:
         return out
     with open(res, 'w') as o:
-        q = subprocess.run([common.DRIVER, 'life', trace], stdout=o, stderr=subprocess.PIPE, text=True, timeout=timeout)
+        q = subprocess.run([common.DRIVER, mode, trace], stdout=o, stderr=subprocess.PIPE, text=True, timeout=timeout)
     out['lean_s'] = time.time() - t1
     if q.returncode != 0:
         out['harness_rc'] = 100 + q.returncode
         out['harness_out'] = q.stderr[-2000:]
         return out
     bad = {}
+    known = {}
     for l in open(res):
         if l.startswith('run '):
+            if ' | known: ' in l:
+                known[l.split(' ', 2)[1]] = l.strip()
             if 'conf=ok spec=ok' in l:
                 continue
             p2 = l.split(' ', 2)
@@ -110,6 +114,9 @@ def run_job(binary, wd, name, args, timeout=3000):
         elif l.startswith('total '):
             m = dict(kv.split('=') for kv in l.split()[1:])
             out['runs'] = int(m['runs']); out['lines'] = int(m['lines'])
+        elif l.startswith('stat '):
+            k, v = l[5:].rstrip().rsplit(' ', 1)
+            out['stats'][k] = out['stats'].get(k, 0) + int(v)
     hashes = set()
     runs = None
     with open(trace) as f:
@@ -131,8 +138,13 @@ def run_job(binary, wd, name, args, timeout=3000):
             else:
                 h = hash((h, line))
     out['distinct'] = len(hashes)
-    if bad:
+    if known:
         runs = _runs_of(trace)
+        for rid, verdict in known.items():
+            r = runs.get(rid)
+            if r: out['known'].append({'scn': r[1].split(' ')[0], 'sched': r[2], 'verdict': verdict})
+    if bad:
+        runs = runs or _runs_of(trace)
         for rid, verdict in bad.items():
             r = runs.get(rid)
             if not r: continue
@@ -142,10 +154,10 @@ def run_job(binary, wd, name, args, timeout=3000):
         os.remove(trace)   # keep only traces with something to look at
     return out
 
-def run_jobs(binary, wd, jobs, workers=16):
+def run_jobs(binary, wd, jobs, workers=16, mode='life'):
     """jobs: list of (name, args). Returns list of result dicts."""
     with ThreadPoolExecutor(max_workers=workers) as ex:
-        futs = [ex.submit(run_job, binary, wd, n, a) for n, a in jobs]
+        futs = [ex.submit(run_job, binary, wd, n, a, 3000, mode) for n, a in jobs]
         return [f.result() for f in futs]
 
 def chunks(lst, k):
@@ -170,11 +182,11 @@ def plan(tier, seed, escalate=False):
         jobs.append(('walk-%d' % i, ['-mode', 'random', '-runs', str(walks), '-seed', str(seed * 31 + i), '-scn', ';'.join(grp)]))
     return jobs, dict(bound=bound, maxruns=maxruns, sampled_scenarios=nsample, walks_per_scenario=walks)
 
-def replay_file(binary, path, wd, name='replay', checkgid=True):
+def replay_file(binary, path, wd, name='replay', checkgid=True, mode='life'):
     """replay a schedule file (scn/sched lines); returns run_job result"""
     args = ['-mode', 'replay', '-in', path]
     if checkgid: args.append('-checkgid')
-    return run_job(binary, wd, name, args)
+    return run_job(binary, wd, name, args, 3000, mode)
 
 def write_sched_file(path, rec, comment=''):
     with open(path, 'w') as f:
@@ -182,7 +194,7 @@ def write_sched_file(path, rec, comment=''):
             if l: f.write('# ' + l + '\n')
         f.write('scn %s\nsched %s\n' % (rec['scn'], rec['sched']))
 
-def shrink_schedule(binary, rec, wd, still_fails):
+def shrink_schedule(binary, rec, wd, still_fails, mode='life'):
     """shorten the schedule: the tail after the last needed choice falls to the default (non-preemptive) policy.
     still_fails(result) decides whether a replay still shows the failure."""
     names = rec['sched'].split(',') if rec['sched'] else []
@@ -190,7 +202,7 @@ def shrink_schedule(binary, rec, wd, still_fails):
     def fails(k):
         p = os.path.join(wd, 'shrink.sched')
         write_sched_file(p, {'scn': rec['scn'], 'sched': ','.join(names[:k])})
-        return still_fails(replay_file(binary, p, wd, 'shrink', checkgid=False))
+        return still_fails(replay_file(binary, p, wd, 'shrink', checkgid=False, mode=mode))
     try:
         if not fails(hi):
             return rec
